@@ -579,7 +579,7 @@ func (g *Gen) instr(in ssa.Instruction, st *State) {
 		stt := pt.Underlying().(*types.Struct)
 		if p.Loc != nil {
 			nl := *p.Loc
-			nl.Path = append(append([]pathStep(nil), p.Loc.Path...), pathStep{Field: x.Field, St: stt})
+			nl.Path = append(append([]pathStep(nil), p.Loc.Path...), pathStep{Field: x.Field, St: stt, T: pt})
 			nl.T = stt.Field(x.Field).Type()
 			g.vals[x] = Val{Loc: &nl, G: x.Type()}
 			return
